@@ -18,6 +18,7 @@ type fgen struct {
 	edges    int  // number of edge properties e0..e(edges-1)
 	rows     []int // allowed rows of the atom table (nil = all)
 	budget   int   // remaining formula nodes (connectives + leaves); <=0 forces single-atom leaves
+	multiPC  bool  // bias leaves towards several constraints (and several quantifiers) in one propertyConstraints map
 }
 
 func (g *fgen) newAtom() *m.Atom {
@@ -56,12 +57,14 @@ func (g *fgen) leaf(depth int) *m.F {
 		f.PC = append(f.PC, m.PCEntry{Prop: a.Prop, Cs: []m.C{{Kind: "atom", Atom: a}}})
 		return f
 	}
-	if rapid.IntRange(0, 3).Draw(g.t, "multiPC") == 0 {
+	if g.multiPC {
+		n = rapid.IntRange(2, 4).Draw(g.t, "pcN")
+	} else if rapid.IntRange(0, 3).Draw(g.t, "multiPC") == 0 {
 		n = rapid.IntRange(2, 3).Draw(g.t, "pcN")
 	}
 	usedProp := map[string]bool{}
 	for i := 0; i < n; i++ {
-		if g.quant && depth < g.maxDepth && rapid.IntRange(0, 2).Draw(g.t, "isQuant") == 0 {
+		if g.quant && depth < g.maxDepth && (rapid.IntRange(0, 2).Draw(g.t, "isQuant") == 0 || (g.multiPC && rapid.Bool().Draw(g.t, "isQuant2"))) {
 			edge := fmt.Sprintf("e%d", rapid.IntRange(0, g.edges-1).Draw(g.t, "edge"))
 			kind := rapid.SampledFrom([]string{"nested", "nested", "atLeast", "atMost"}).Draw(g.t, "qkind")
 			if usedProp[edge+"/"+kind] {
